@@ -158,7 +158,7 @@ func schedulerLab(c *Ctx) int {
 		w := c.Pool.One()
 		for _, sch := range []string{"canon", "seeded"} {
 			a := w.Exec(&Job{Node: "simlab", Argv: []string{"deadlock-timer"}, Seed: 5, Sched: sch, Budget: 40_000_000, NsTick: nsPerTick})
-			if a.Status != "timeout" || a.Exit != 1 || !bytes.Contains(a.Stdout, []byte("deadlock watchdog")) || a.Ticks < watchdogTicks {
+			if a.Status != "timeout" || a.Exit != 1 || !bytes.Contains(a.Stdout, []byte("timeout")) || a.Ticks < watchdogTicks {
 				bad++
 				fmt.Printf("simlab deadlock-timer (%s): want the watchdog branch at >= %d ticks, got status=%s exit=%d ticks=%d out=%q\n", sch, watchdogTicks, a.Status, a.Exit, a.Ticks, a.Stdout)
 			}
@@ -169,6 +169,18 @@ func schedulerLab(c *Ctx) int {
 			}
 		}
 		fmt.Printf("scheduler lab deadlock  : timer and no-timer variants end as the real process would\n")
+		// timers that are not ruby-ti's watchdog: a context deadline and a stoppable timer that
+		// do not fire before the work is done, and a ticker whose ticks must not end the work
+		for _, k := range []string{"context", "newtimer", "ticker"} {
+			for _, sch := range []string{"canon", "seeded", "rev"} {
+				a := w.Exec(&Job{Node: "simlab", Argv: []string{"timers-" + k}, Seed: 11, Sched: sch, Budget: 40_000_000, NsTick: nsPerTick})
+				if a.Exit != 0 || !bytes.Contains(a.Stdout, []byte("timers "+k+" done 599994")) || (k == "ticker" && !bytes.Contains(a.Stdout, []byte("true"))) {
+					bad++
+					fmt.Printf("simlab timers-%s (%s): want the work to finish, got status=%s exit=%d ticks=%d out=%q\n", k, sch, a.Status, a.Exit, a.Ticks, a.Stdout)
+				}
+			}
+		}
+		fmt.Printf("scheduler lab timers    : context deadline, stoppable timer and ticker do not end the computation\n")
 	}
 	for _, m := range modes {
 		fmt.Printf("scheduler lab %-10s: %d distinct interleavings over %d schedules\n", m, len(distinct[m]), nseeds+2)
